@@ -296,6 +296,7 @@ func (r *Run) Violation(caseName string, detail interface{}) {
 	r.mu.Lock()
 	r.violations++
 	n := r.violations
+	r.counters["violation:"+caseName]++
 	r.mu.Unlock()
 	if n > 25 {
 		return // enough witnesses
